@@ -174,6 +174,39 @@ theorem shift_res_rel (left : Bool) (k : IntTy) (x y : List Bool) (va vb : Val) 
       refine ⟨h2, ⟨?_, h1⟩, henv2⟩
       rw [inRange_iff]; exact Src.wrapTo_range k _
 
+theorem litFactor_some {e : Expr} {neg : Bool} {n : Nat} {k : IntTy} (h : litFactor e = some (neg, n, k)) :
+    ∃ n0 : Int, e = .int n0 k ∧ n0 ≠ 0 ∧ n = n0.natAbs ∧ neg = decide (n0 < 0) := by
+  cases e <;> simp only [litFactor] at h <;> try (simp at h; done)
+  rename_i n0 k0
+  split at h
+  · rename_i hc
+    simp only [Option.some.injEq, Prod.mk.injEq] at h
+    obtain ⟨rfl, rfl, rfl⟩ := h
+    exact ⟨n0, rfl, hc.1, rfl, rfl⟩
+  · simp at h
+
+/-- the product step of a multiplication by a small positive literal -/
+theorem litMul_res_rel (k : IntTy) (n0 : Int) (hpos : 0 < n0) (y : List Bool) (vb : Val) (env2 : Src.Env) (benv2 : BEnv)
+    (hrb : Rel (.int k) vb y) (henv2 : EnvRel env2 benv2) (litFirst : Bool) :
+    ResRel (match (if litFirst then Src.binop .mul (STy.int k).toTy (.int n0) vb
+        else Src.binop .mul (STy.int k).toTy vb (.int n0)) with
+      | .ok rv => .ok (rv, env2)
+      | .error e => .error e) (.s (.int k))
+      (Arith.constMul y k.signed n0.natAbs false).1
+      (seqP none (if (Arith.constMul y k.signed n0.natAbs false).2 then some .overflow else none)) benv2 := by
+  obtain ⟨v, rfl, hv, rfl⟩ := hrb.int_inv
+  have hn : 1 ≤ n0.natAbs := by omega
+  have hcast : ((n0.natAbs : Nat) : Int) = n0 := by omega
+  obtain ⟨h1, h2⟩ := constMul_enc k v n0.natAbs hv hn
+  rw [hcast] at h1 h2
+  have hcomm : v * n0 = n0 * v := Int.mul_comm _ _
+  cases litFirst <;> simp only [Bool.false_eq_true, if_false, if_true, Src.binop, STy.toTy, intOp, checked, hcomm]
+  all_goals
+    cases hr : k.inRange (n0 * v)
+    · simp [ResRel, seqP, h2 hr]
+    · rw [h1 hr]
+      simp [ResRel, VRel, Rel, seqP, hr, henv2]
+
 theorem exprOK_succ (prog : Prog) (fuel : Nat) (ihE : ExprOK prog fuel) (ihS : StmtsOK prog fuel) :
     ExprOK prog (fuel + 1) := by
   intro e env benv t bs p benv' henv hb
@@ -500,10 +533,106 @@ theorem exprOK_succ (prog : Prog) (fuel : Nat) (ihE : ExprOK prog fuel) (ihS : S
           · simp at hb
         · simp at hb
       · simp at hb
+    case mul =>
+      simp only [bitExpr, if_true] at hb
+      split at hb
+      · -- the left operand is the literal: only `b` is compiled
+        rename_i neg n k hfa
+        obtain ⟨hneg, hty, y, p2, hbb, rfl, rfl, rfl⟩ := litMul_some hb
+        obtain ⟨n0, rfl, hn0, rfl, hd⟩ := litFactor_some (by simpa using hfa)
+        subst hneg
+        have hpos : 0 < n0 := by
+          have : ¬ n0 < 0 := by simpa using hd.symm
+          omega
+        have hty' := ofTy_some hty
+        subst hty'
+        rw [evalExpr_bin _ _ _ _ _ _ _ (by decide) (by decide)]
+        cases fuel with
+        | zero => simp [evalExpr, ResRel]
+        | succ f =>
+          have ihb := ihE b env benv _ _ _ _ henv hbb
+          rw [show evalExpr (f + 1) prog env (.int n0 k) = .ok (.int n0, env) from by simp [evalExpr]]
+          dsimp only
+          cases hevb : evalExpr (f + 1) prog env b with
+          | error er =>
+            rw [hevb] at ihb
+            exact ihb.error_of (fun p => seqP p _) (fun _ => rfl)
+          | ok resb =>
+            obtain ⟨vb, envb⟩ := resb
+            rw [hevb] at ihb
+            obtain ⟨rfl, hrb, henv2⟩ := ihb
+            exact litMul_res_rel k n0 hpos y vb envb _ hrb henv2 true
+      · -- the right operand is the literal: only `a` is compiled
+        rename_i neg n k _ hfb
+        obtain ⟨hneg, hty, y, p2, hba, rfl, rfl, rfl⟩ := litMul_some hb
+        obtain ⟨n0, rfl, hn0, rfl, hd⟩ := litFactor_some (by simpa using hfb)
+        subst hneg
+        have hpos : 0 < n0 := by
+          have : ¬ n0 < 0 := by simpa using hd.symm
+          omega
+        have hty' := ofTy_some hty
+        subst hty'
+        have iha := ihE a env benv _ _ _ _ henv hba
+        rw [evalExpr_bin _ _ _ _ _ _ _ (by decide) (by decide)]
+        cases heva : evalExpr fuel prog env a with
+        | error er =>
+          rw [heva] at iha
+          exact iha.error_of (fun p => seqP p _) (fun _ => rfl)
+        | ok resa =>
+          obtain ⟨va, enva⟩ := resa
+          rw [heva] at iha
+          obtain ⟨rfl, hra, henv1⟩ := iha
+          dsimp only
+          cases fuel with
+          | zero => simp [evalExpr] at heva
+          | succ f =>
+            rw [show evalExpr (f + 1) prog enva (.int n0 k) = .ok (.int n0, enva) from by simp [evalExpr]]
+            dsimp only
+            exact litMul_res_rel k n0 hpos y va enva _ hra henv1 false
+      · split at hb
+        · simp at hb
+        · rename_i t' hty
+          split at hb
+          · rename_i ta x p1 env1 ha
+            split at hb
+            · rename_i tb' y p2 env2 hbb
+              split at hb
+              · rename_i hts
+                obtain ⟨rfl, rfl⟩ := hts
+                split at hb
+                · rename_i tr r panics hbin
+                  simp only [Option.some.injEq, Prod.mk.injEq] at hb
+                  obtain ⟨rfl, rfl, rfl, rfl⟩ := hb
+                  have iha := ihE a env benv _ _ _ _ henv ha
+                  have hty' := ofTy_some hty
+                  subst hty'
+                  rw [evalExpr_bin _ _ _ _ _ _ _ (by decide) (by decide)]
+                  cases hev : evalExpr fuel prog env a with
+                  | error er => rw [hev] at iha; exact iha.error_of (fun p => seqP p _) (fun _ => rfl)
+                  | ok res =>
+                    obtain ⟨va, enva⟩ := res
+                    rw [hev] at iha
+                    obtain ⟨rfl, hra, henv1⟩ := iha
+                    have ihb := ihE b enva env1 _ _ _ _ henv1 hbb
+                    dsimp only
+                    cases hevb : evalExpr fuel prog enva b with
+                    | error er =>
+                      rw [hevb] at ihb
+                      exact ihb.error_of (fun p => seqP none (seqP p _)) (fun _ => rfl)
+                    | ok resb =>
+                      obtain ⟨vb, envb⟩ := resb
+                      rw [hevb] at ihb
+                      obtain ⟨rfl, hrb, henv2⟩ := ihb
+                      exact binop_res _ _ x y va vb tr r panics envb env2 hra hrb hbin henv2
+                · simp at hb
+              · simp at hb
+            · simp at hb
+          · simp at hb
     all_goals
       simp only [bitExpr] at hb
       split at hb
-      · simp at hb
+      · rename_i heq; simp at heq
+      · rename_i heq; simp at heq
       split at hb
       · simp at hb
       · rename_i t' hty
